@@ -1,4 +1,4 @@
-"""C13 -- a long-lived project answers like a fresh one (clauses R13.1-R13.11)."""
+"""C13 -- a long-lived project answers like a fresh one (clauses R13.1-R13.12)."""
 from __future__ import annotations
 
 import ast
@@ -6,6 +6,7 @@ from typing import Dict, List, Optional, Set
 
 from ..cfg import CFG
 from ..core import AnalysisError, call_name, calls_in, dotted, is_self_attr, norm, walk_local, param_names, first_param
+from . import common
 
 EXPLANATION = (
     "R13.1: in _ResourceOperations (and libutils.report_change) every normal CFG path after a file-system mutation "
@@ -61,6 +62,7 @@ def check(ctx, res) -> None:
     _check_main(ctx, res)
     _indicator_rule(ctx, res)
     _name_index_rule(ctx, res)
+    _validated_resource_itself_rule(ctx, res)
 
 
 def _indicator_rule(ctx, res) -> None:
@@ -104,6 +106,45 @@ def _indicator_rule(ctx, res) -> None:
                 f"the indicator lacks {missing}: an external edit that leaves "
                 + ("the size" if missing == ["getmtime"] else "the time stamp (coarse granularity, or restored with os.utime)")
                 + " unchanged is not seen by validate()", function=gi.qualname)
+
+
+def _validated_resource_itself_rule(ctx, res) -> None:
+    """R13.12: validate(r) examines r ITSELF as well as what r contains.  A cached package is watched by its folder, and a
+    child added behind rope's back shows only in that folder's indicator -- so in each search of the filtered observer the
+    test "is r watched" is made whether or not r is a folder (it is not confined to the non-folder side of an
+    `is_folder()` test; `Folder.contains` is strict, a folder does not contain itself)."""
+    idx = ctx.idx
+    fro = idx.need_class("rope.base.resourceobserver.FilteredResourceObserver")
+    n = 0
+    for mname, m in sorted(fro.methods.items()):
+        if not mname.startswith("_search_resource_"):
+            continue
+        n += 1
+        found, confined = [], []
+        for g in common.with_private_helpers(idx, m):
+            ps = param_names(g.node)[1:] if g.cls is not None else param_names(g.node)
+            if not ps:
+                continue
+            p0 = ps[0]
+            cfg = CFG(g.node)
+            for nd in cfg.nodes:
+                if nd.ast is None:
+                    continue
+                hits = [x for x in ast.walk(nd.ast) if isinstance(x, ast.Compare) and len(x.ops) == 1 and isinstance(x.ops[0], ast.In)
+                        and isinstance(x.left, ast.Name) and x.left.id == p0 and is_self_attr(x.comparators[0], "resources")]
+                if not hits or isinstance(nd.ast, (ast.For, ast.While, ast.FunctionDef)):
+                    continue
+                side = [pol for t, pol in cfg.guards(nd.id) if isinstance(t, ast.Call) and call_name(t) == "is_folder"
+                        and isinstance(t.func, ast.Attribute) and isinstance(t.func.value, ast.Name) and t.func.value.id == p0]
+                (confined if side else found).append((g, nd))
+        ok = bool(found)
+        where = f"{(found or confined or [(m, None)])[0][0].unit.rel}:{(found or confined)[0][1].lineno}" if (found or confined) else m.where
+        res.add("R13.12", f"{mname}|resource-itself", ok, where,
+                "the validated resource itself is looked up in the watch table, folder or not" if ok else
+                ("the validated resource itself is looked up in the watch table only when it is NOT a folder: validate(package_folder) no longer examines the "
+                 "folder, so a module created in (or removed from) a cached package behind rope's back is never noticed and the package keeps its old child table"
+                 if confined else "the validated resource itself is never looked up in the watch table"), function=m.qualname)
+    res.floor("R13.12", "validate searches of the filtered observer", n, 3)
 
 
 def _name_index_rule(ctx, res) -> None:
